@@ -25,30 +25,32 @@ type Config struct {
 	Stub       bool     `json:"stub,omitempty"`
 	SkipEnsure bool     `json:"skip_ensure,omitempty"`
 	WithResets bool     `json:"with_resets,omitempty"`
-	DestKind   string   `json:"dest_kind"`         // implicit | same | other | test
-	Pkg        string   `json:"pkg,omitempty"`     // value of -pkg ("" = absent)
-	Fmt        string   `json:"fmt,omitempty"`     // "" | gofmt | goimports | noop
-	Args       []string `json:"args"`              // Iface or Iface:Alias
-	Invoke     string   `json:"invoke,omitempty"`  // srcdot | rootrel | foreignabs
-	Out        string   `json:"out,omitempty"`     // "" = stdout; else path relative to the world root
+	DestKind   string   `json:"dest_kind"`        // implicit | same | other | test
+	Pkg        string   `json:"pkg,omitempty"`    // value of -pkg ("" = absent)
+	Fmt        string   `json:"fmt,omitempty"`    // "" | gofmt | goimports | noop
+	Args       []string `json:"args"`             // Iface or Iface:Alias
+	Invoke     string   `json:"invoke,omitempty"` // srcdot | rootrel | foreignabs
+	Out        string   `json:"out,omitempty"`    // "" = stdout; else path relative to the world root
 	Rm         bool     `json:"rm,omitempty"`
 	RawArgv    []string `json:"raw_argv,omitempty"` // if set: used verbatim (C17/C19 hostile invocations)
 }
 
 // Case is a world plus a command line.
 type Case struct {
-	Prop    string            `json:"property,omitempty"`
-	Oracle  string            `json:"oracle,omitempty"`
-	Expect  string            `json:"expect,omitempty"`
-	ModPath string            `json:"mod_path"`
-	Gopath  bool              `json:"gopath,omitempty"` // GOPATH+vendor layout: files live under src/<ModPath>/
-	Files   map[string]string `json:"files"`
-	SrcDir  string            `json:"src_dir"`  // relative to the world root
-	SrcPath string            `json:"src_path"` // import path of the source package
-	SrcName string            `json:"src_name"`
-	Cfg     Config            `json:"config"`
-	Labels  []string          `json:"labels,omitempty"`
-	Note    string            `json:"note,omitempty"`
+	Prop     string            `json:"property,omitempty"`
+	Oracle   string            `json:"oracle,omitempty"`
+	Expect   string            `json:"expect,omitempty"`
+	ModPath  string            `json:"mod_path"`
+	Gopath   bool              `json:"gopath,omitempty"` // GOPATH+vendor layout: files live under src/<ModPath>/
+	Files    map[string]string `json:"files"`
+	Alt      map[string]string `json:"alt_files,omitempty"` // harness F: files of the evolved source version (v2) that differ from Files
+	Scenario map[string]any    `json:"scenario,omitempty"`  // harness F/X: the drawn history / fault plan
+	SrcDir   string            `json:"src_dir"`             // relative to the world root
+	SrcPath  string            `json:"src_path"`            // import path of the source package
+	SrcName  string            `json:"src_name"`
+	Cfg      Config            `json:"config"`
+	Labels   []string          `json:"labels,omitempty"`
+	Note     string            `json:"note,omitempty"`
 }
 
 func (c *Case) HasLabel(l string) bool {
